@@ -44,6 +44,20 @@ def _pair(rng, maxl):
     if k < 0.5:
         # neighbours (borrow chains across zero limbs)
         return a, a + rng.choice([-1, 1, 2 ** 32, -2 ** 32])
+    if k < 0.58:
+        # one operand a multiple / power of the other, or a product next to it (exact division, results that shrink by
+        # several limbs, cancellation to zero or one)
+        m = N.rand_int(rng, 2) or 3
+        r = rng.random()
+        if r < 0.3:
+            return a * m, a
+        if r < 0.5:
+            return a * a, a
+        if r < 0.7:
+            return a * m + rng.choice([-1, 0, 1]), a * m
+        if r < 0.85:
+            return a * m, m
+        return a * m + rng.choice([-1, 1]) * (abs(a) - 1 if a else 0), a
     return a, N.rand_int(rng, maxl)
 
 
@@ -207,6 +221,11 @@ def _miri_cases(rng):
         a = rng.randint(-99, 99)
         b = rng.choice([1, 2, 3, 7, -5])
         out.append({'script': '%s %s bdiv out' % (N.limbs_tok(a), N.limbs_tok(b)), 'expect': [N.exp_big(N.trunc_div(a, b))], 'tag': 'miri', 'desc': 'div'})
+    for _ in range(4):
+        # object histories on one-limb values (registers, in-place operations, repeated renderings of the same object)
+        h = N.big_history(rng, maxl=1)
+        h['tag'] = 'miri'
+        out.append(h)
     return out
 
 
